@@ -9,6 +9,9 @@ CFG = {'assumptions': ['version strings of at most 16 bytes that do not end in N
         'pbcmpl.Roundtrip': 'pbcmpl.Marshal (n frames into one buffer) then pbcmpl.Unmarshal until io.EOF over a chunked reader',
         'pbcmpl.ReadHeader': 'pbcmpl.Marshal then pbcmpl.ReadHeader over a chunked reader',
         'pbcmpl.Roundtrip/empties': 'widening: as pbcmpl.Roundtrip with a reader that also returns (0, nil) - empty chunks - at given positions',
+        'pbcmpl.Roundtrip/session': 'several connections one after the other in ONE process: Marshal n frames, cut the wire (dropped connection, clean EOF) or not, Unmarshal until the first error',
+        'pbcmpl.Walk/bufio': 'pbcmpl.Walk/frames over bufio.NewReaderSize(reader, size); every Header is held and inspected only after the whole stream was walked',
+        'pbcmpl.Roundtrip/big': 'pbcmpl.Roundtrip with payloads of count x one byte (bodies above 1 MiB followed by more frames), byte strings in run-length form',
         'pbcmpl.Walk/frames': 'widening: pbcmpl.Marshal (n frames into one buffer), then a user loop of pbcmpl.ReadHeader + io.ReadFull(GetBodySize) over a chunked reader, no decoding'},
  'rule': 'cases = exhaustive sweep {raw legacy message, wrappers.BytesValue} x {no GetVersion, version length 0..16 in three byte '
          'styles} x body length {0,1,31,32,33,127,128} x chunking {whole, 1 byte, 7, 32+5} + bodies of 511..multi-KB (around '
